@@ -110,6 +110,17 @@ class Verifier(QuantMixin, LoopMixin, ExprMixin, CallMixin, StmtMixin, BuiltinsM
             return z3.Or(Val.is_none(v), self.type_formula(v, spec[4:], hint=False))
         if '|' in spec:
             return z3.Or(*[self.type_formula(v, s, hint=False) for s in spec.split('|')])
+        if spec.startswith('seq['):
+            inner = spec[4:-1]
+            L, T = builtin_class('list'), builtin_class('tuple')
+            self.use_class(L)
+            self.use_class(T)
+            if hint:
+                sq = smt.simp(z3.Select(self.strip_fresh(self.st.seq) if self.is_old(v) else self.st.seq, Val.r(v)))
+                self.seq_elem_type[sq.get_id()] = inner
+                self.container_elem_type[smt.simp(v).get_id()] = inner
+            cid = smt.cls_of(Val.r(v))
+            return z3.And(Val.is_ref(v), Val.r(v) >= 0, z3.Or(cid == L.cid, cid == T.cid))
         if spec == 'json':
             L, D = builtin_class('list'), builtin_class('dict')
             self.use_class(L)
@@ -164,7 +175,10 @@ class Verifier(QuantMixin, LoopMixin, ExprMixin, CallMixin, StmtMixin, BuiltinsM
         known = self.subclasses.get(K.qualname, [K])
         for k in known:
             self.use_class(k)
-        universe = z3.Or(*[cid == k.cid for k in known], z3.And(cid < -100_000, cid > -900_000))
+        closed = K.builtin and K.name in ('list', 'tuple', 'dict', 'set', 'frozenset', 'str', 'int', 'bool', 'float',
+                                          'iterator', 'defaultdict')
+        universe = z3.Or(*[cid == k.cid for k in known]) if closed else \
+            z3.Or(*[cid == k.cid for k in known], z3.And(cid < -100_000, cid > -900_000))
         return z3.And(universe, *[self.sub_term(cid, b) for b in K.mro()])
 
     def assume_type(self, v, spec: str) -> None:
@@ -236,6 +250,9 @@ class Verifier(QuantMixin, LoopMixin, ExprMixin, CallMixin, StmtMixin, BuiltinsM
         """class_is(obj, cls_value): type(obj) is cls_value"""
         o = self.ev(e.args[0], fr)
         c = self.ev(e.args[1], fr)
+        K = self.static_of(c)
+        if isinstance(K, ClassInfo):
+            self.use_class(K)
         return self.to_val_bool(z3.And(Val.is_ref(o), Val.is_ref(c), smt.cls_of(Val.r(o)) == Val.r(c)))
 
     def prim_member(self, e, fr):
@@ -497,6 +514,15 @@ class Verifier(QuantMixin, LoopMixin, ExprMixin, CallMixin, StmtMixin, BuiltinsM
         self.set_attr_raw(it, '$pos', pos if pos is not None else smt.mk_int(0))
         return it
 
+    def prim_dup_in(self, e, fr):
+        """dup_in(existing_set, ids): some non-null id in the sequence duplicates an earlier one or a member of the
+        set.  Uninterpreted function of the set's contents and the sequence VALUE (assumed semantics of the
+        duplicate check in _add_ids; validated by the bounded stand-in)"""
+        ex = self.ev(e.args[0], fr)
+        ids = self.to_seq_val(self.ev(e.args[1], fr))
+        f = z3.Function('uf_dup_in', smt.DictV, smt.SeqV, z3.BoolSort())
+        return self.to_val_bool(f(self.dict_arr(ex), self.get_seq(ids)))
+
     def prim_uf(self, e, fr):
         """uf('name', a, b, ...): uninterpreted spec predicate over values (a dependency's semantics)"""
         name = ast.literal_eval(e.args[0])
@@ -749,8 +775,7 @@ class Verifier(QuantMixin, LoopMixin, ExprMixin, CallMixin, StmtMixin, BuiltinsM
             self.old = saved_old
 
     def _apply_contract_outcome(self, ct: Contract, fi: FuncInfo, env: Dict[str, Any]):
-        self.havoc_modifies(ct, env)
-        # outcome
+        # outcome conditions speak about the PRE-state: evaluate them before the frame is havocked
         raises = list(ct.raises_only)
         cond = None
         if ct.returns_iff is not None:
@@ -762,6 +787,7 @@ class Verifier(QuantMixin, LoopMixin, ExprMixin, CallMixin, StmtMixin, BuiltinsM
             if short in ct.raises_iff:
                 g = self.clause_holds(ct.raises_iff[short], env)
             guards.append(g)
+        self.havoc_modifies(ct, env)
         if len(guards) == 1:
             k = 0
             self.assume(guards[0])
@@ -1024,7 +1050,8 @@ class Verifier(QuantMixin, LoopMixin, ExprMixin, CallMixin, StmtMixin, BuiltinsM
     def check_return(self, fi: FuncInfo, ct: Contract, vals: Dict[str, Any], result) -> None:
         env = dict(vals)
         env['result'] = result
-        if ct.returns_iff is not None:
+        skip = set(ct.extra.get('assumed_clauses', ()))
+        if ct.returns_iff is not None and 'returns_iff' not in skip:
             saved = self.st.snapshot()
             self.st.restore(self.old)
             c = self.clause_holds(ct.returns_iff, vals)
@@ -1035,6 +1062,8 @@ class Verifier(QuantMixin, LoopMixin, ExprMixin, CallMixin, StmtMixin, BuiltinsM
             self.oblige('result_type', f'result : {ct.result_type}', self.type_formula(result, ct.result_type),
                         ct.props_of('result_type'))
         for cl in ct.ensures:
+            if cl.name in skip:
+                continue
             self.oblige('ensures', cl.name, self.clause_holds(cl, env), ct.props_of(cl.name))
         self.check_frame(fi, ct, vals)
 
@@ -1048,7 +1077,8 @@ class Verifier(QuantMixin, LoopMixin, ExprMixin, CallMixin, StmtMixin, BuiltinsM
                     f'{[k.name for k in allowed]}',
                     z3.Or(*conds) if conds else z3.BoolVal(False), ct.props_of('raises_only'),
                     info={'origin': pr.origin})
-        if ct.returns_iff is not None:
+        skip = set(ct.extra.get('assumed_clauses', ()))
+        if ct.returns_iff is not None and 'returns_iff' not in skip:
             saved = self.st.snapshot()
             self.st.restore(self.old)
             cnd = self.clause_holds(ct.returns_iff, vals)
